@@ -8,7 +8,9 @@ from __future__ import annotations
 import random
 from typing import Any, Dict, List
 
-COMP = ["gemm_a", "gemm_b", "void elementwise<4>(int)", "relu_kernel", "softmax_fwd", "triton_poi_fused_0", "fooMemset"]
+COMP = ["gemm_a", "gemm_b", "void elementwise<4>(int)", "relu_kernel", "softmax_fwd", "triton_poi_fused_0", "fooMemset",
+        # names that merely start with "nccl" or contain the communication pattern elsewhere are ordinary computation kernels
+        "nccl_allreduce_pack_half2", "nccl:all_reduce", "my_ncclKernel_wrapper"]
 COMM = ["ncclKernel_AllReduce_RING_LL_Sum_float", "ncclDevKernel_AllGather_RING_LL(ncclDevComm*)", "ncclKernel_ReduceScatter"]
 MEM = ["Memcpy HtoD (Pinned -> Device)", "Memcpy DtoH (Device -> Pinned)", "Memcpy DtoD (Device -> Device)", "Memset (Device)", "dma_copy"]
 OTHER = ["fooSync", "barMemcpy", "Stream Sync", "nccl_prologue_Sync"]
@@ -49,6 +51,8 @@ def gen_rank(rnd: random.Random, rank: int, p: Dict[str, Any]) -> Dict[str, Any]
         s = rnd.choice(streams)
         cat = "cuda_sync" if nm == "Stream Sync" else ("gpu_memcpy" if nm.startswith("Memcpy") else "gpu_memset" if nm.startswith("Memset") else "kernel")
         args = {"correlation": 500 + k, "stream": s, "device": 0}
+        if rnd.random() < p.get("p_no_corr", 0.0):
+            del args["correlation"]              # a device activity whose launch was not recorded (no correlation id at all)
         if cat in ("gpu_memcpy", "gpu_memset"):
             args.update({"bytes": 1024, "memory bandwidth (GB/s)": rnd.choice([0.5, 1.25, 12.0])})
         ev.append({"ph": "X", "cat": cat, "name": nm, "pid": 0, "tid": s, "ts": base + a, "dur": b - a, "args": args})
@@ -79,13 +83,16 @@ def gen_case(rnd: random.Random, tier: str, need_comm: bool = False, annotations
     T = rnd.choice([6, 12, 40, 1000])
     base = rnd.choice([0, 1000, 10 ** 6, 1_700_000_000_000_000])     # ranks share one clock (aligned times stay small)
     files = {}
-    for r in range(n_ranks):
+    # the ranks of a job need not be 0..n-1 (a subset of a larger job's files; a single file of rank 6)
+    labels = list(range(n_ranks)) if rnd.random() < 0.6 else sorted(rnd.sample([0, 1, 2, 3, 5, 6, 8, 13, 64], n_ranks))
+    p_no_corr = rnd.choice([0.0, 0.0, 0.15, 0.4])
+    for r in labels:
         w = rnd.choice([[5, 3, 2, 1], [1, 1, 1, 1], [6, 1, 0, 0], [3, 3, 3, 0]])
         if need_comm and w[1] == 0:
             w = [3, 3, 1, 1]
         p = {"T": T, "base": base + rnd.choice([0, 0, 3, 500]), "n_act": rnd.randint(1, rnd.choice([4, 14, 40])),
              "n_streams": rnd.choice([1, 2, 3, 4]), "p_zero": rnd.choice([0.0, 0.15, 0.3]), "type_weights": w,
-             "many_names": rnd.random() < 0.5, "shuffle": rnd.random() < 0.5, "force_comm": need_comm,
+             "many_names": rnd.random() < 0.5, "shuffle": rnd.random() < 0.5, "force_comm": need_comm, "p_no_corr": p_no_corr,
              "n_ann": rnd.choice([0, 0, 3, 12]) if annotations else 0,
              "ann_names": rnd.sample(["fwd", "bwd", "opt", "nccl:all_reduce", "fwd_block_1", "fwd_block_2", "loss", "data", "others"], rnd.randint(1, 9))}
         files[f"rank{r}.json"] = gen_rank(rnd, r, p)
